@@ -97,17 +97,30 @@ func runC13(c *engine.Ctx) {
 			if fv == nil {
 				return
 			}
-			if _, basic := fv.Type().Underlying().(*types.Basic); !basic {
+			// a basic field, or a small struct of basic fields that is recorded and compared as one value
+			if identityWidth(fv.Type()) == 0 {
 				return
 			}
-			src := engine.Provenance(st.Val, engine.ProvOpts{})
+			src := engine.DeepSources(c.P, st.Val) // through a constructor of the identity value, if any
 			fromParam := false
 			for pr := range src.Params {
-				if pr != recv {
+				if pr != recv && pr.Parent() == f {
 					fromParam = true
 				}
 			}
-			if fromParam && len(src.Calls) == 0 {
+			// a value computed by a call is not a creation parameter (the acquired port), except a struct slot built by a
+			// constructor of this package from the parameters
+			pure := true
+			for ci := range src.CallIns {
+				if ci.Parent() == nil || ci.Parent().Pkg != f.Pkg {
+					continue // how a caller in another package computed its argument is not this group's business
+				}
+				callee := engine.CalleeObj(ci)
+				if !(callee != nil && src.Followed[callee] && callee.Pkg() == f.Pkg.Pkg && identityWidth(fv.Type()) > 1) {
+					pure = false
+				}
+			}
+			if fromParam && pure {
 				ji.identity[fv] = true
 			}
 		})
@@ -129,7 +142,11 @@ func runC13(c *engine.Ctx) {
 			idn = append(idn, fv.Name())
 		}
 		sort.Strings(idn)
-		if len(ji.identity) < 3 || len(ji.memberAdd) == 0 {
+		width := 0
+		for fv := range ji.identity {
+			width += identityWidth(fv.Type())
+		}
+		if width < 3 || len(ji.memberAdd) == 0 {
 			c.Undecide(sp.join, f.Pos(), "group join shape not recognised (identity fields %v, member adds %d)", idn, len(ji.memberAdd))
 			continue
 		}
@@ -146,7 +163,7 @@ func runC13(c *engine.Ctx) {
 				for fv := range ji.identity {
 					// the comparison may sit in this function or in an extracted helper (guard summary): the field is
 					// identified by its object, the other operand must derive from a non-receiver parameter
-					eq, k := st.Equal(func(v ssa.Value) bool { lf, _ := engine.LoadedField(v); return lf == fv }, func(v ssa.Value) bool {
+					fromParam := func(v ssa.Value) bool {
 						src := engine.Provenance(v, engine.ProvOpts{})
 						for pr := range src.Params {
 							if pr.Parent() != nil && len(pr.Parent().Params) > 0 && pr != pr.Parent().Params[0] {
@@ -154,9 +171,41 @@ func runC13(c *engine.Ctx) {
 							}
 						}
 						return false
-					})
+					}
+					eq, k := st.Equal(func(v ssa.Value) bool { lf, _ := engine.LoadedField(v); return lf == fv }, fromParam)
 					if !(k && eq) {
-						missing = append(missing, fv.Name())
+						// a struct slot may be compared field by field (in place or in a helper such as params.check(req))
+						fieldwise := false
+						if sst, isS := fv.Type().Underlying().(*types.Struct); isS && sst.NumFields() > 0 {
+							fieldwise = true
+							for i := 0; i < sst.NumFields(); i++ {
+								sub := sst.Field(i)
+								e2, k2 := st.Equal(func(v ssa.Value) bool {
+									root, path := engine.FieldPath(v)
+									if al, ok := root.(*ssa.Alloc); ok && al.Referrers() != nil {
+										// a struct parameter spilled into a local at entry
+										for _, r := range *al.Referrers() {
+											if s, ok := r.(*ssa.Store); ok && s.Addr == ssa.Value(al) {
+												if pr, ok := s.Val.(*ssa.Parameter); ok {
+													root = pr
+												}
+											}
+										}
+									}
+									if pr, ok := root.(*ssa.Parameter); ok && pr != recv {
+										r2, p2 := engine.FieldPath(st.Resolve(pr))
+										root, path = r2, append(append([]*types.Var{}, p2...), path...)
+									}
+									return root == ssa.Value(recv) && len(path) == 2 && path[0] == fv && path[1] == sub
+								}, fromParam)
+								if !(k2 && e2) {
+									fieldwise = false
+								}
+							}
+						}
+						if !fieldwise {
+							missing = append(missing, fv.Name())
+						}
 					}
 				}
 				sort.Strings(missing)
@@ -438,6 +487,23 @@ func runC13(c *engine.Ctx) {
 	// ---- R12 a start-up that fails after some joins succeeded leaves those groups again (shared with C10.R2): otherwise
 	// the group keeps a member whose proxy never ran, and connections handed to it are lost ----
 	checkRunRollbacks(c, "R12")
+}
+
+// identityWidth: how many basic values a group identity slot holds — 1 for a basic field, n for a struct of n basic
+// fields (compared with == as a whole), 0 for anything else.
+func identityWidth(t types.Type) int {
+	switch u := t.Underlying().(type) {
+	case *types.Basic:
+		return 1
+	case *types.Struct:
+		for i := 0; i < u.NumFields(); i++ {
+			if _, ok := u.Field(i).Type().Underlying().(*types.Basic); !ok {
+				return 0
+			}
+		}
+		return u.NumFields()
+	}
+	return 0
 }
 
 // checkCleanupAfterAcquire (C13.R2 second half, also C10.R10): a closure that releases a registration is queued for
